@@ -65,6 +65,12 @@ CHECKS = {
    design_ref="DESIGN.md section 3, C13",
    note="Digest computed with Go's crypto packages in the driver; launch observed through the marker file and exec.Cmd.Process.",
    technique="runtime monitoring: launch-marker oracle against an independently computed digest, exhaustive single-bit/prefix sub-spaces"),
+ "C04": dict(
+   category="exploration",
+   text="Runtime monitor: real plugin subprocesses in nine shutdown behaviours (exit at once / after 200-1000 ms cleanup / never / busy / SIGSTOPped with state T awaited / already dead / failed handshake) x three protocols x three launch methods x four call patterns (single, sequential, concurrent Kill, CleanupClients over mixed managed clients in a host process of their own); after each Kill call returns the monitor reads /proc/<pid>/stat, Exited() and a cleanup-marker file written by the plugin after its cleanup; race detector on both processes.",
+   design_ref="DESIGN.md section 3, C04",
+   note="Bounded-time reading: Kill counts as hung after H=max(4N,N+15s); frozen net/rpc and mux plugins (bounded only by the 30+10 s yamux keep-alive) run in the thorough tier only; the not-force-killed clause is judged for non-concurrent patterns.",
+   technique="runtime monitoring: /proc + cleanup-marker oracle over real subprocess shutdown behaviours, race detector"),
 }
 PENDING_REASON = "check not built yet in this revision; it is planned as a runtime monitor (see DESIGN.md section 3) and will move to 'checks' when it exists"
 
